@@ -248,6 +248,8 @@ def run1 (c : Case) : CaseResult := Id.run do
     | none => false
     | some ks => vis.any fun e => ((e.p1 == a && e.p2 == b) || (e.p1 == b && e.p2 == a)) && !hasKey ks (pairKey e.o1 e.v1 e.o2 e.v2)
   let mut stats : List (String × Nat) := [("shapes", shapes.length), ("conns", conns.length), ("visEdges", vis.length), ("ovisEdges", ovis.length)]
+  -- generator sub-class printed by the harness (`gen <name>`), e.g. touching-cluster
+  if let some g := c.get1 "gen" then stats := bumpStats stats s!"gen.{g[0]?.getD "?"}" 1
   let mut nontrivial := false
   let mut fails : List Fail := []
   -- ---------------------------------------------------------------- routes (the property itself)
